@@ -6,6 +6,7 @@ import (
 	"fmt"
 	"reflect"
 	"strings"
+	"unicode/utf8"
 
 	cbor "github.com/fxamacker/cbor/v2"
 	"github.com/veraison/psatoken/encoding"
@@ -142,6 +143,56 @@ func twoValue(r *Rng, mask int) *ShTwo {
 	return src
 }
 
+// jsonFieldDesc: "namehex:o|m:ty:val" of one field for the model's serj op; flatVal: the model's rendering of a field value.
+func fieldTy(fr fieldRef) string {
+	switch fr.v.Type().Elem().Kind() {
+	case reflect.Int64:
+		return "i"
+	case reflect.String:
+		return "t"
+	}
+	return "b"
+}
+
+func flatVal(fr fieldRef) string {
+	if fr.v.IsNil() {
+		return "_"
+	}
+	switch x := fr.v.Elem().Interface().(type) {
+	case int64:
+		return fmt.Sprintf("i%d", x)
+	case string:
+		return "t" + hx([]byte(x))
+	case []byte:
+		return "b" + hx(x)
+	}
+	return "?"
+}
+
+func jsonFieldDesc(fr fieldRef) string {
+	o := "m"
+	if fr.omit {
+		o = "o"
+	}
+	v := flatVal(fr)
+	if v != "_" {
+		v = v[1:]
+	}
+	return hx([]byte(fr.name)) + ":" + o + ":" + fieldTy(fr) + ":" + v
+}
+
+func flatVals(v interface{}) string {
+	var frs []fieldRef
+	walkFields(reflect.ValueOf(v).Elem(), &frs)
+	parts := make([]string, len(frs))
+	for i, fr := range frs {
+		parts[i] = flatVal(fr)
+	}
+	return strings.Join(parts, "|")
+}
+
+var jsonShapeName = map[int]string{0: "flat", 1: "one", 2: "two", 5: "allopt", 6: "inner"}
+
 func fmtEntries(n *Node) string {
 	if n == nil || n.Kind != kMap {
 		return "?"
@@ -253,6 +304,13 @@ func runC15(r *Run, rng *Rng, thorough bool) {
 				r.Fail("one-object", fmt.Sprintf("JSON output is not a single object: %s", jout))
 				continue
 			}
+			if !hasNonUTF8Text(frs) {
+				jd := make([]string, len(frs))
+				for i, fr := range frs {
+					jd[i] = jsonFieldDesc(fr)
+				}
+				r.Case(class+"/json", false, "serj "+strings.Join(jd, ","), "json="+jt.Proto())
+			}
 			var jwant []string
 			for _, fr := range frs {
 				if fr.v.IsNil() && fr.omit {
@@ -352,7 +410,15 @@ func runC15(r *Run, rng *Rng, thorough bool) {
 			jdst := mk()
 			var jperr error
 			jpan, _ := safely(func() { jperr = encoding.PopulateStructFromJSON(jin, jdst) })
-			r.ImplOnly(class+"/json", false, fmt.Sprintf("popj shape%d %s", si, jin))
+			if name, ok := jsonShapeName[si]; ok && !hasNonUTF8Text(frs) {
+				res := "err"
+				if !jpan && jperr == nil {
+					res = "ok " + flatVals(jdst)
+				}
+				r.Case(class+"/json", false, "popj "+name+" "+jsub.Proto(), res)
+			} else {
+				r.ImplOnly(class+"/json", false, fmt.Sprintf("popj shape%d %s", si, jin))
+			}
 			switch {
 			case jpan:
 				r.Fail("populate-panics", fmt.Sprintf("PopulateStructFromJSON panicked on %s", jin))
@@ -437,6 +503,19 @@ func runC15(r *Run, rng *Rng, thorough bool) {
 		}
 	}
 	_ = cbor.RawMessage{}
+}
+
+// hasNonUTF8Text: a text value that JSON cannot carry unchanged (encoding/json substitutes U+FFFD)
+func hasNonUTF8Text(frs []fieldRef) bool {
+	for _, fr := range frs {
+		if fr.v.IsNil() {
+			continue
+		}
+		if x, ok := fr.v.Elem().Interface().(string); ok && !utf8.ValidString(x) {
+			return true
+		}
+	}
+	return false
 }
 
 // synthRoundTrip: a synthetic flat struct type with n optional *int64 fields, all set.
